@@ -849,6 +849,19 @@ def sprint (env : Env) (args : List Val) : Res :=
 def helperForErrorf (env : Env) (format : List Byte) (args : List Val) : Res :=
   doPrintf env defaultFuel { newPP with wrapErrs := true } format args
 
+/-! ### The unclassified run (C04's reference text)
+
+A printer on which nothing is classified: safe mode, safe override, empty buffer. Under the safe
+override every `start*()` bracket is the identity and every write is appended verbatim to the
+pending bytes (`Props/C04.lean`), so after the run `buf.buf` is the text written, unescaped and
+without envelopes: the model's reading of what `fmt` prints. -/
+def plainPP : PP := { newPP with buf := newPP.buf.setMode .safeEsc, override := .ovSafe }
+
+def plainSprintf (env : Env) (f : List Byte) (args : List Val) : Res := doPrintf env defaultFuel plainPP f args
+def plainSprint (env : Env) (args : List Val) : Res := doPrint env defaultFuel plainPP args
+def plainErrorf (env : Env) (f : List Byte) (args : List Val) : Res :=
+  doPrintf env defaultFuel { plainPP with wrapErrs := true } f args
+
 def Res.output : Res → Option (List Byte)
   | .ok p => some p.buf.redactableBytes
   | _ => none
